@@ -119,6 +119,8 @@ def check_exact(prop, tier, seed):
     leaves_for_tv = []
 
     def keep(rec):
+        if rec.get('obl'):
+            return  # leaves with a violated obligation go to the counterexample replay, not to translation validation
         if 'ret' in rec and (rec['path'] % 5 == 0 or rec['depth'] == 0):
             if len(leaves_for_tv) < 60000:
                 leaves_for_tv.append(rec)
@@ -130,7 +132,7 @@ def check_exact(prop, tier, seed):
         out.fault = 'no leaf reached an obligation of ' + prop
     nvalid = 0
     if not out.fault:
-        nvalid, mism = translation_validate(leaves_for_tv, r_mcb, tier, seed)
+        nvalid, mism = translation_validate(leaves_for_tv, r_mcb, tier, seed, out=out, prop=prop, violated=_exact_predicate(prop))
         if mism:
             out.fault = 'translation validation: ' + mism
     if not out.fault:
@@ -228,6 +230,8 @@ def check_approx(prop, tier, seed):
     leaves_for_tv = []
 
     def keep(rec):
+        if rec.get('obl'):
+            return  # leaves with a violated obligation go to the counterexample replay, not to translation validation
         if 'ret' in rec and (rec['path'] % 5 == 0 or rec['depth'] == 0) and len(leaves_for_tv) < 60000:
             leaves_for_tv.append(rec)
     s, log = run_harness(h, cases, prop + '-' + tier, timeout=budget)
@@ -248,9 +252,14 @@ def check_approx(prop, tier, seed):
                 continue
             lines.append(replay_line(rec, weights, 'double'))
             meta.append(rec)
-        for rec, o in zip(meta, run_replayer_batch(r_mcb, lines)):
+        for rec, o, line in zip(meta, run_replayer_batch(r_mcb, lines), lines):
             k = int(rec['k'])
-            if o.get('crashed') or o['N'] != int(rec['N']) or c01_violated(o) or o['ret'] != o['sum'] or approx_bound_violated(o, k):
+            c05bad = c01_violated(o) or (not o.get('crashed') and o['ret'] != o['sum'])
+            c06bad = (not c05bad) and (approx_bound_violated(o, k) if k else False)
+            if (prop == 'C05' and c05bad) or (prop == 'C06' and (c06bad or c05bad)):
+                real_violation(out, prop, line, o, '%s/k=%s/%s' % (rec.get('algo'), rec.get('k'), rec.get('edges')))
+                continue
+            if o.get('crashed') or o['N'] != int(rec['N']):
                 out.fault = 'translation validation: real double build disagrees with symbolic leaf %s: %s' % (rec.get('case'), json.dumps(o)[:300])
                 break
             nvalid += 1
@@ -331,6 +340,8 @@ def run_symx_check(prop, tier, seed, harness_src, cases, budget, tv, confirm, bo
     leaves = []
 
     def keep(rec):
+        if rec.get('obl'):
+            return  # leaves with a violated obligation go to the counterexample replay, not to translation validation
         if (rec['path'] % keep_every == 0 or rec['depth'] == 0) and len(leaves) < 60000:
             leaves.append(rec)
     s, log = run_harness(h, cases, prop + '-' + tier, timeout=budget)
@@ -344,7 +355,10 @@ def run_symx_check(prop, tier, seed, harness_src, cases, budget, tv, confirm, bo
         r = rng(seed)
         r.shuffle(leaves)
         nvalid, mism = tv(leaves[:(48 if tier == 'quick' else 2500)], rbin)
-        if mism:
+        if isinstance(mism, dict):
+            # the real build violates the property itself on a leaf model: a replay-confirmed violation
+            real_violation(out, prop, mism['line'], mism['observed'], mism['key'], 'real build (%s) violates the property on a leaf model' % replayer)
+        elif mism:
             out.fault = 'translation validation: ' + mism
     if not out.fault and (agg.violated or agg.crashes):
         confirm(agg, rbin, out)
@@ -441,7 +455,9 @@ def C12(tier, seed):
                 return n, 'real build crashed on %s' % rec['case']
             exp = [[(str(parse_q(x) * den) if x != '-' else '-') for x in row] for row in rec['dist']]
             got = [[(str(fractions.Fraction(x)) if x != '-' else '-') for x in row] for row in o['dist']]
-            if exp != got or not o['exact']:
+            if not o['exact']:
+                return n, {'line': lines[len(lines) - len(meta) + n] if False else 'what=sptree n=%s edges=%s' % (rec['n'], rec['edges']), 'observed': o, 'key': 'sptree/%s' % rec['edges']}
+            if exp != got:
                 return n, 'distances differ on %s model %s: symbolic %s real %s' % (rec['case'], rec['model'], exp, got)
             n += 1
         return n, None
@@ -934,6 +950,8 @@ def C18(tier, seed):
     leaves = []
 
     def keep(rec):
+        if rec.get('obl'):
+            return  # leaves with a violated obligation go to the counterexample replay, not to translation validation
         if len(leaves) < 20000:
             leaves.append(rec)
     budget = 900 if tier == 'quick' else 3300
@@ -1227,6 +1245,8 @@ def C03(tier, seed):
     sched_stats = {'reduces': 0, 'schedules': 0, 'max_alts': 0}
 
     def keep(rec):
+        if rec.get('obl'):
+            return  # leaves with a violated obligation go to the counterexample replay, not to translation validation
         if 'reduces' in rec:
             sched_stats['reduces'] += int(rec['reduces'])
             sched_stats['schedules'] += int(rec['schedules'])
@@ -1251,14 +1271,17 @@ def C03(tier, seed):
                 continue
             lines.append(replay_line(rec, weights, 'double'))
             meta.append((rec, den))
-        for (rec, den), o in zip(meta, run_replayer_batch(r_mcb, lines)):
+        for (rec, den), o, line in zip(meta, run_replayer_batch(r_mcb, lines), lines):
             bad = o.get('crashed') or c01_violated(o) or o['ret'] != o['sum']
             if not bad:
                 if rec['algo'].startswith('approx'):
                     bad = approx_bound_violated(o, int(rec['k']))
                 else:
-                    bad = o['sum'] != o['opt'] or fractions.Fraction(o['ret']) != parse_q(rec['ret']) * den
+                    bad = o['sum'] != o['opt']
             if bad:
+                real_violation(out, prop, line, o, '%s/%s' % (rec.get('algo'), rec.get('edges')), 'real libtbb build violates the property on a leaf model')
+                continue
+            if not rec['algo'].startswith('approx') and fractions.Fraction(o['ret']) != parse_q(rec['ret']) * den:
                 out.fault = 'translation validation: real libtbb build disagrees on %s model %s: %s' % (rec['case'], rec['model'], json.dumps(o)[:300])
                 break
             nvalid += 1
@@ -1371,6 +1394,8 @@ def C04(tier, seed):
     stats = {'not_achieved': 0, 'collectives': 0}
 
     def keep(rec):
+        if rec.get('obl'):
+            return  # leaves with a violated obligation go to the counterexample replay, not to translation validation
         if 'layouts' in rec:
             layouts_seen.add((rec['P'], rec['layouts']))
             stats['not_achieved'] += int(rec.get('layout_not_achieved', 0))
@@ -1763,6 +1788,8 @@ def C09(tier, seed):
     leaves = []
 
     def keep(rec):
+        if rec.get('obl'):
+            return  # leaves with a violated obligation go to the counterexample replay, not to translation validation
         if 'cycles' in rec and len(leaves) < 40000 and rec['path'] % 3 == 0:
             leaves.append(rec)
     s, log = run_harness(h, cases, prop + '-' + tier, timeout=1200 if tier == 'quick' else 3400, max_paths=3000000)
